@@ -429,6 +429,7 @@ def run_c13(ctx, chk):
     chk.cover('branched lookups', nb.eps, ['insert_characters', 'delete_characters'])
     footprint_row(ctx, chk, ['insert_characters', 'delete_characters'])
     blank_provenance(ctx, chk, ['insert_characters', 'delete_characters'], 'default_char')
+    shift_distance(ctx, chk)
     # must-footprint: every cell from the cursor column to the right edge is rewritten (stored or
     # removed) - a loop that touches the cell of its element in every iteration, cannot be left early
     # and covers [cursor column, columns)
@@ -457,6 +458,56 @@ def run_c13(ctx, chk):
                      detail='; '.join(bad[:2]) or '%d exit paths' % cnt, span=ctx.prog.bodies[f].span, what='%s leaves cells of the rest of the row untouched: %s' % (m, '; '.join(bad[:2])))
     from .rules_c01 import panic_obligations
     panic_obligations(chk, 'C13', sr['engine'], only_funcs=funcs)
+
+
+def shift_distance(ctx, chk):
+    """ICH / DCH move every surviving cell by exactly the count asked for (absent or 0: one): a cell stored at column d that
+    was taken from column s of the same row has d = s + n (ICH) resp. s = d + n (DCH), on every path - also where the count is
+    larger than what fits (the clamp `min(n, columns - x)` of the statement changes nothing there, because nothing survives)"""
+    sr = ctx.screen_run()
+    eng = sr['engine']
+    prog = ctx.prog
+    for meth, sign in (('insert_characters', 1), ('delete_characters', -1)):
+        f = ep(meth)
+        scope = closures_of(ctx, {f})
+        agg = {}
+        for e in sr['events']:
+            ev = e['ev']
+            if e['ep'] != f or e['func'] not in scope or ev[0] != 'map.insert' or g.level_of(e) != 'cell':
+                continue
+            st = e['st']
+            d, v = ev[2], ev[3]
+            pv = getattr(v, 'prov', None)
+            src = None
+            if isinstance(pv, tuple) and pv and pv[0] == 'removed' and len(pv) > 2 and isinstance(pv[2], NumV):
+                src = pv[2]
+            elif isinstance(pv, tuple) and pv and pv[0] == 'elem-clone' and pv[2] and pv[2][-1][0] == 'e' and isinstance(pv[2][-1][1], NumV):
+                src = pv[2][-1][1]
+            if src is None or not isinstance(d, NumV):
+                continue          # a blank (R-BLANK decides what it is) or a value of unknown origin (R-BLANK reports it)
+            a0 = st.vn.get(('entry-arg', 0))
+            n = opt_payload(a0)
+            if isinstance(a0, EnumV) and a0.tags == {0}:
+                n = NumV(None, 1, 'u32')
+            elif isinstance(n, NumV) and eng.prove_cmp(st, 'eq', n, NumV(None, 0, 'u32')) is True:
+                n = NumV(None, 1, 'u32')
+            ok = False
+            why = 'count not known'
+            if isinstance(n, NumV) and eng.prove_le(st, NumV(None, 1, 'u32'), n) is True:
+                a, b = (src, d) if sign > 0 else (d, src)          # b = a + n
+                ok, w = plt.prove_rel(eng, st, 'eq', b, lambda s_, a=a, n=n: eng.num_add(s_, a, n, 'u32'))
+                why = 'the cell stored at column %s comes from column %s, documented a distance of %s (%s)' % (
+                    g.term(eng, st, d), g.term(eng, st, src), g.term(eng, st, n), w)
+            k = (short(e['func']), 'moved cell @%s' % site_ord(prog, e))
+            a_ = agg.setdefault(k, dict(ok=True, why='', span=e['span'], n=0))
+            a_['n'] += 1
+            if not ok and a_['ok']:
+                a_['ok'] = False
+                a_['why'] = why + ' | ' + str(e['entry'])
+        for (ff, c), a_ in sorted(agg.items()):
+            chk.instance('R-SHIFT', ff, c, a_['ok'], detail=a_['why'] or '%d visits' % a_['n'], span=a_['span'],
+                         what='%s does not move the rest of the row by exactly the count: %s' % (meth, a_['why']))
+        chk.floor('%s moved-cell stores' % meth, len(agg), 1)
 
 
 def footprint_row(ctx, chk, meths, rule='R-FOOT'):
@@ -533,7 +584,7 @@ def blank_provenance(ctx, chk, meths, want, rule='R-BLANK'):
         v = ev[3]
         eps_seen.add(e['ep'].split('::')[-1])
         pv = getattr(v, 'prov', None)
-        moved = isinstance(v, (OpaqueV,)) or (isinstance(v, StructV) and pv is None) or (isinstance(pv, tuple) and pv[0] == 'removed')
+        moved = isinstance(v, (OpaqueV,)) or (isinstance(v, StructV) and pv is None) or (isinstance(pv, tuple) and pv[0] in ('removed', 'elem-clone'))
         if want == 'default_char':
             good = moved or g.is_default_char(eng, e['st'], v)[0]
             desc = 'a moved cell or default_char()'
